@@ -24,8 +24,18 @@ class QUICOutputbuilder:
         else:
             self.server_port = self.default_port
 
+    def build_packet(self, isserver: bool, payload: bytes):
+        ip = IPv6 if self.ipv6 else IP
+        if isserver:
+            return Ether(src=self.server_mac_address, dst=self.client_mac_address) / ip(
+                src=self.server_ip, dst=self.client_ip) / UDP(
+                dport=self.client_port, sport=self.server_port) / Raw(payload)
+        else:
+            return Ether(src=self.client_mac_address, dst=self.server_mac_address) / ip(
+                src=self.client_ip, dst=self.server_ip) / UDP(
+                dport=self.server_port, sport=self.client_port) / Raw(payload)
+
     def build(self, metadata: bool):
-        pn = self.decrypted_traffic[0].src_packet.packet_num
         ts = self.decrypted_traffic[0].src_packet.ts
         isserver = self.decrypted_traffic[0].src_packet.isserver
         packets = bytearray()
@@ -41,67 +51,18 @@ class QUICOutputbuilder:
             elif data is None:
                 continue
 
-            if frame.src_packet.packet_num == pn:
+            # frames from the same input datagram (same capture time, same sender) share one output datagram
+            if frame.src_packet.ts == ts and frame.src_packet.isserver == isserver:
                 packets.extend(data)
                 continue
-            else:  # if packets number changes
-                if frame.src_packet.ts == ts:  # if same ts => same datagram
-                    pn = frame.src_packet.packet_num
-                    packets.extend(data)
-                    continue
-                else:  # if not same ts => different datagram
-                    if isserver:
-                        if not self.ipv6:
-                            packet = Ether(src=self.server_mac_address, dst=self.client_mac_address) / IP(
-                                src=self.server_ip,
-                                dst=self.client_ip) / UDP(
-                                dport=self.client_port, sport=self.server_port) / Raw(bytes(packets))
-                        else:
-                            packet = Ether(src=self.server_mac_address, dst=self.client_mac_address) / IPv6(
-                                src=self.server_ip,
-                                dst=self.client_ip) / UDP(
-                                dport=self.client_port, sport=self.server_port) / Raw(bytes(packets))
 
-                    else:
-                        if not self.ipv6:
-                            packet = Ether(src=self.client_mac_address, dst=self.server_mac_address) / IP(
-                                src=self.client_ip,
-                                dst=self.server_ip) / UDP(
-                                dport=self.server_port, sport=self.client_port) / Raw(bytes(packets))
-                        else:
-                            packet = Ether(src=self.client_mac_address, dst=self.server_mac_address) / IPv6(
-                                src=self.client_ip.encode(),
-                                dst=self.server_ip.encode()) / UDP(
-                                dport=self.server_port, sport=self.client_port) / Raw(bytes(packets))
+            self.out.append((self.build_packet(isserver, bytes(packets)), ts))
 
-                    self.out.append((packet, ts))
+            ts = frame.src_packet.ts
+            isserver = frame.src_packet.isserver
+            packets = bytearray()
+            packets.extend(data)
 
-                    pn = frame.src_packet.packet_num
-                    ts = frame.src_packet.ts
-                    isserver = frame.src_packet.isserver
-                    packets = bytearray()
-                    packets.extend(data)
-
-        if isserver:
-            if not self.ipv6:
-                packet = Ether(src=self.server_mac_address, dst=self.client_mac_address) / IP(src=self.server_ip,
-                                                                                              dst=self.client_ip) / UDP(
-                    dport=self.client_port, sport=self.server_port) / Raw(bytes(packets))
-            else:
-                packet = Ether(src=self.server_mac_address, dst=self.client_mac_address) / IPv6(src=self.server_ip,
-                                                                                              dst=self.client_ip) / UDP(
-                    dport=self.client_port, sport=self.server_port) / Raw(bytes(packets))
-
-        else:
-            if not self.ipv6:
-                packet = Ether(src=self.client_mac_address, dst=self.server_mac_address) / IP(src=self.client_ip,
-                                                                                              dst=self.server_ip) / UDP(
-                    dport=self.server_port, sport=self.client_port) / Raw(bytes(packets))
-            else:
-                packet = Ether(src=self.client_mac_address, dst=self.server_mac_address) / IPv6(src=self.client_ip,
-                                                                                              dst=self.server_ip) / UDP(
-                    dport=self.server_port, sport=self.client_port) / Raw(bytes(packets))
-
-        self.out.append((packet, ts))
+        self.out.append((self.build_packet(isserver, bytes(packets)), ts))
 
         return self.out
